@@ -23,6 +23,7 @@ BUDGET = {
     "quick": {"examples": 240, "shards": 4, "case_timeout": 60, "wall_budget": 240},
     "thorough": {"examples": 6000, "shards": 16, "case_timeout": 120, "wall_budget": 1800},
 }
+FUZZ = {"thorough": dict(runs=20000, procs=8, wall_s=600)}
 TOLERANCES = {"iface": "bit-identical or explicit error", "ops": "1e-10 * scale (float64)"}
 VARIANTS = ["f_and_g", "f+g_prod", "f_and_g_prod", "all", "f_and_g+g_prod", "names:f,g", "names:f_and_g",
             "names:f_and_g_prod", "f+g+f_and_g_prod"]
